@@ -26,6 +26,7 @@ void igris::vtermxx::newdata(int16_t input_c)
     char c = 0;
     int ret;
     int return_flag = 0;
+    unsigned int prev_cursor = 0;
 
     while (return_flag == 0)
     {
@@ -69,6 +70,10 @@ void igris::vtermxx::newdata(int16_t input_c)
                 break;
             }
 
+            // Положение курсора до обработки символа: от него отсчитывается
+            // возврат к началу строки при замене строки из истории.
+            prev_cursor =
+                (unsigned int)(rl.line().current_size() - rl.line().rightsize());
             ret = rl.newdata(c);
 
             switch (ret)
@@ -146,16 +151,17 @@ void igris::vtermxx::newdata(int16_t input_c)
             {
                 char buf[16];
 
-                if (rl.lastsize())
+                if (echo)
                 {
-                    if (echo)
+                    if (prev_cursor)
                     {
-                        ret = vt100_left(buf, rl.lastsize());
+                        ret = vt100_left(buf, prev_cursor);
 
                         write_callback(buf, ret);
-
-                        write_callback(VT100_ERASE_LINE_AFTER_CURSOR, 3);
                     }
+
+                    if (rl.lastsize())
+                        write_callback(VT100_ERASE_LINE_AFTER_CURSOR, 3);
                 }
 
                 if (rl.line().data())
